@@ -86,6 +86,14 @@ pub struct ReqState {
     pub owner: u64,
 }
 
+#[derive(Clone, Debug, PartialEq, Eq)]
+pub struct Chan {
+    pub queue: VecDeque<u64>,
+    pub tx_alive: bool,
+    pub rx_alive: bool,
+    pub woke: bool,
+}
+
 #[derive(Clone, Debug, Default, PartialEq, Eq)]
 pub struct StepOut {
     pub effects: Vec<EffectDesc>,
@@ -106,6 +114,8 @@ pub struct Globals {
     pub local_rounds: u64,
     /// left operand of an `and` -> the combined command it is part of
     pub inline_parent: BTreeMap<u64, u64>,
+    /// task-to-task channels by instance
+    pub chans: BTreeMap<u64, Chan>,
     /// the reference evicted something the implementation is known to keep (see known findings)
     pub sticky: Option<String>,
     /// task / chain currently running (owner of the requests it issues)
@@ -227,6 +237,8 @@ pub enum WaitKind {
     Join,
     /// woke itself: will be polled again without outside help
     SelfWake,
+    /// blocked receiving from a task-to-task channel whose sender is alive (uid = channel instance)
+    Chan,
 }
 
 #[derive(Clone, Copy, Debug)]
@@ -245,6 +257,7 @@ fn wait_live(g: &Globals, w: &Wait) -> bool {
         WaitKind::Req | WaitKind::Stream => !g.is_dropped(w.key) && !g.has_value(w.key),
         WaitKind::Join => g.live_tasks.contains(&w.uid),
         WaitKind::SelfWake => true,
+        WaitKind::Chan => g.chans.get(&w.uid).is_some_and(|c| c.tx_alive && c.queue.is_empty()),
     }
 }
 
@@ -253,6 +266,7 @@ fn wait_fired(g: &Globals, w: &Wait) -> bool {
         WaitKind::Req | WaitKind::Stream => g.woke(w.key),
         WaitKind::Join => !g.live_tasks.contains(&w.uid),
         WaitKind::SelfWake => true,
+        WaitKind::Chan => g.chans.get(&w.uid).is_none_or(|c| c.woke || !c.tx_alive || !c.queue.is_empty()),
     }
 }
 
@@ -529,6 +543,8 @@ enum Blk {
     Req(ReqKey),
     Loop { key: ReqKey, n: u32, in_body: bool },
     Join(u64),
+    /// blocked receiving from this channel instance
+    Recv(u64),
     /// self-waking yields still to go: each one ends the current poll and asks for another
     Yield(u8),
     JoinAll(Vec<Branch>),
@@ -553,6 +569,9 @@ pub struct Seq {
     tokens: i64,
     frames: Vec<Frame>,
     legacy: bool,
+    /// channel ends this task holds: channel id -> instance
+    tx: BTreeMap<u32, u64>,
+    rx: BTreeMap<u32, u64>,
 }
 
 impl Seq {
@@ -573,6 +592,8 @@ impl Seq {
             tokens: 0,
             frames: vec![Frame { stmts: task.stmts.clone(), pc: 0, blk: None }],
             legacy,
+            tx: BTreeMap::new(),
+            rx: BTreeMap::new(),
         }
     }
 
@@ -583,6 +604,7 @@ impl Seq {
             let Some(frame) = self.frames.last_mut() else {
                 g.tokens -= self.tokens;
                 self.tokens = 0;
+                self.drop_chan_ends(g);
                 return true;
             };
             if frame.pc >= frame.stmts.len() {
@@ -823,6 +845,69 @@ impl Seq {
                     g.tokens += 1;
                     frame.pc += 1;
                 }
+                Stmt::SpawnChan { c, child_sends, task, slot } => {
+                    let inst = g.uid();
+                    g.chans.insert(inst, Chan { queue: VecDeque::new(), tx_alive: true, rx_alive: true, woke: false });
+                    let uid = g.uid();
+                    g.live_tasks.insert(uid);
+                    if let Some(sl) = slot {
+                        self.slots.insert(sl, uid);
+                    }
+                    let mut child = Seq::new(&task, self.acc, self.legacy);
+                    // an end stored under the same name replaces (drops) the previous one
+                    if child_sends {
+                        if let Some(old) = self.rx.insert(c, inst) {
+                            if let Some(ch) = g.chans.get_mut(&old) {
+                                ch.rx_alive = false;
+                                ch.queue.clear();
+                            }
+                        }
+                        child.tx.insert(c, inst);
+                    } else {
+                        if let Some(old) = self.tx.insert(c, inst) {
+                            if let Some(ch) = g.chans.get_mut(&old) {
+                                if ch.tx_alive {
+                                    ch.tx_alive = false;
+                                    ch.woke = true;
+                                }
+                            }
+                        }
+                        child.rx.insert(c, inst);
+                    }
+                    spawned.push(TaskSt { uid, seq: child, polled: false });
+                    frame.pc += 1;
+                    g.progress = true;
+                }
+                Stmt::ChanSend(c) => {
+                    if let Some(ch) = self.tx.get(&c).and_then(|i| g.chans.get_mut(i)) {
+                        if ch.rx_alive {
+                            ch.queue.push_back(self.acc);
+                            ch.woke = true;
+                        }
+                    }
+                    frame.pc += 1;
+                    g.progress = true;
+                }
+                Stmt::ChanRecv(c) => match self.rx.get(&c).copied() {
+                    None => frame.pc += 1,
+                    Some(inst) => {
+                        let ch = g.chans.get_mut(&inst).expect("channel instance");
+                        if let Some(v) = ch.queue.pop_front() {
+                            self.acc = v;
+                            frame.blk = None;
+                            frame.pc += 1;
+                            g.progress = true;
+                        } else if !ch.tx_alive {
+                            self.acc = super::ast::chan_closed(self.acc);
+                            frame.blk = None;
+                            frame.pc += 1;
+                            g.progress = true;
+                        } else {
+                            frame.blk = Some(Blk::Recv(inst));
+                            return false;
+                        }
+                    }
+                },
                 Stmt::AbortCmd(h) => {
                     // takes effect when the aborted command is next polled; this task runs on to its
                     // next await point, and everything already emitted is still delivered
@@ -854,6 +939,7 @@ impl Seq {
                     }
                 }
                 Some(Blk::Join(uid)) => f(Wait { kind: WaitKind::Join, key: (0, 0), uid: *uid, under_stream: under, polled: is_top }),
+                Some(Blk::Recv(inst)) => f(Wait { kind: WaitKind::Chan, key: (0, 0), uid: *inst, under_stream: under, polled: is_top }),
                 Some(Blk::Yield(_)) => f(Wait { kind: WaitKind::SelfWake, key: (0, 0), uid: 0, under_stream: under, polled: true }),
                 Some(Blk::JoinAll(bs) | Blk::Select(bs)) => {
                     for b in bs {
@@ -875,6 +961,37 @@ impl Seq {
             g.close_rx(k);
         }
         self.release_tokens(g);
+        self.drop_all_chan_ends(g);
+    }
+
+    fn drop_all_chan_ends(&mut self, g: &mut Globals) {
+        self.drop_chan_ends(g);
+        for fr in &mut self.frames {
+            if let Some(Blk::JoinAll(bs) | Blk::Select(bs)) = &mut fr.blk {
+                for b in bs {
+                    b.seq.drop_all_chan_ends(g);
+                }
+            }
+        }
+    }
+
+    /// the task's future is gone: so are the channel ends it held
+    fn drop_chan_ends(&mut self, g: &mut Globals) {
+        for inst in std::mem::take(&mut self.tx).values() {
+            if let Some(c) = g.chans.get_mut(inst) {
+                if c.tx_alive {
+                    c.tx_alive = false;
+                    c.woke = true;
+                    g.progress = true;
+                }
+            }
+        }
+        for inst in std::mem::take(&mut self.rx).values() {
+            if let Some(c) = g.chans.get_mut(inst) {
+                c.rx_alive = false;
+                c.queue.clear();
+            }
+        }
     }
 
     fn release_tokens(&mut self, g: &mut Globals) {
@@ -893,7 +1010,7 @@ impl Seq {
         // conservative: uses a dummy globals-free walk
         for fr in &self.frames {
             match &fr.blk {
-                None | Some(Blk::Join(_) | Blk::Yield(_)) => {}
+                None | Some(Blk::Join(_) | Blk::Yield(_) | Blk::Recv(_)) => {}
                 Some(Blk::Req(k)) => out.push(*k),
                 Some(Blk::Loop { key, .. }) => out.push(*key),
                 Some(Blk::JoinAll(bs) | Blk::Select(bs)) => {
@@ -991,6 +1108,7 @@ impl TaskSt {
                         WaitKind::Req | WaitKind::Stream => !g.is_dropped(w.key),
                         WaitKind::Join => g.live_tasks.contains(&w.uid),
                         WaitKind::SelfWake => true,
+                        WaitKind::Chan => true,
                     }
             });
             if !can_wake {
@@ -1511,6 +1629,7 @@ impl Model {
                 pending_task_aborts: vec![],
                 local_rounds: 0,
                 inline_parent: BTreeMap::new(),
+                chans: BTreeMap::new(),
                 sticky: None,
                 cur_owner: 0,
                 aborted_tasks: BTreeSet::new(),
@@ -1742,6 +1861,11 @@ impl Model {
         for r in self.g.reqs.values_mut() {
             r.woke = false;
         }
+        for c in self.g.chans.values_mut() {
+            c.woke = false;
+        }
+        // channels nobody holds any more are forgotten
+        self.g.chans.retain(|_, c| c.tx_alive || c.rx_alive);
         self.g.aborted_this_settle.clear();
         self.g.cmds_aborted_this_settle.clear();
         self.g.reap.clear();
